@@ -36,7 +36,7 @@ LEVEL = 'model_checking'
 
 ACTIONS = ['Refine', 'RefSpace', 'RefBy', 'HierAnd', 'Take', 'Select', 'Remove', 'Union', 'Slice', 'Trim', 'Trim2']
 MUTANTS = {'child-drop': ('StepProp', 'BoundaryClosed', 'StepConserves'), 'trim-overlap': ('Disjoint',), 'nb-skew': ('InterfacesOnce', 'BoundaryClosed', 'FacetPartition')}
-NPROC = 4
+NPROC = 12
 
 # minimal behaviours that witness the findings recorded for this property (replayed on every run, first)
 WITNESSES = [
@@ -73,6 +73,8 @@ def plan(tier, seed):
     if tier == 'quick':
         jobs['ex1'] = ('MCTopo', dict(cfg='MCTopo_quick.cfg', coverage=True, workers=1), True)
         jobs['sim'] = ('MCTopo', dict(cfg='MCTopo_sim.cfg', simulate=dict(num=14), depth=4, seed=seed, workers=1, timeout=400), False)
+        # directed, exhaustive: intersections of hierarchical topologies of different depth (refined_by . [refined_by & refined_by])
+        jobs['ex2-hier'] = ('MCTopo', dict(cfg_text=_cfg('Bases_hier', 2, 1, 1, ops='Ops_hier', ref='Ref_1'), workers=1, timeout=400), True)
         jobs['mutant-' + mut] = ('MCTopo', dict(cfg_text=_cfg('Bases_mutant', 2, 1, 1, mutant=mut, emit=None), workers=1), True)
     else:
         jobs['ex1'] = ('MCTopo', dict(cfg='MCTopo_quick.cfg', coverage=True, workers=1), True)
@@ -134,7 +136,7 @@ def _replay_group(cases):
     n0 = len(c10_replay.RELABEL_NOTES)
     with treelog.set(treelog.FilterLog(treelog.StdoutLog(), minlevel=treelog.proto.Level.error)):
         for c in cases:
-            if time.time() > _DEADLINE:
+            if time.process_time() > _DEADLINE:      # CPU seconds of this worker (a forked worker starts at zero): load independent
                 out.append(('skipped', None, 0))
                 continue
             preds = [_PREDS[_hkey(c['base'], c['L'], c['hist'][:k])] for k in range(len(c['hist']) + 1)]
@@ -174,7 +176,7 @@ def generate(rep, jobs, rng, limit):
         for e in res.emitted:
             key = _hkey(e['base'], e['L'], e['hist'])
             if key not in behaviours:
-                behaviours[key] = dict(base=e['base'], L=e['L'], hist=e['hist'])
+                behaviours[key] = dict(base=e['base'], L=e['L'], hist=e['hist'], src=name)
             if 'pred' in e:
                 preds[key] = e['pred']
     cov = results['ex1'].coverage
@@ -195,6 +197,13 @@ def generate(rep, jobs, rng, limit):
     for b in leaves:
         strata.setdefault((b['base'], b['hist'][0]['op'], b['hist'][-1]['op']), []).append(b)
     order = []
+    if rep.tier == 'quick':
+        # the directed families of the quick tier are small and go first: they are replayed whatever the time budget cuts later
+        order = [b for b in leaves if b.get('src', '').startswith('ex2-')]
+        for k in list(strata):
+            strata[k] = [b for b in strata[k] if not b.get('src', '').startswith('ex2-')]
+            if not strata[k]:
+                del strata[k]
     while strata:
         for k in list(strata):
             order.append(strata[k].pop())
@@ -226,7 +235,7 @@ def replay(rep, cases, preds, budget):
         for i in range(0, len(g), 6):
             tasks.append(g[i:i + 6])
     _PREDS = preds
-    _DEADLINE = time.time() + budget
+    _DEADLINE = budget
     ctx = multiprocessing.get_context('fork')
     with ctx.Pool(NPROC) as pool:
         outs = pool.map(_replay_group, tasks, chunksize=1)
@@ -262,7 +271,8 @@ def run(rep):
     quick = rep.tier == 'quick'
     rng = random.Random(rep.seed)
     jobs = plan(rep.tier, rep.seed)
-    # seconds of replay after the TLC runs (VF_C10_BUDGET overrides, for heavily loaded machines)
+    # CPU seconds of replay per worker process after the TLC runs (VF_C10_BUDGET overrides); CPU time, not wall-clock time, so that
+    # the replay coverage does not depend on the load of the machine
     budget = float(os.environ.get('VF_C10_BUDGET') or (45 if quick else 420))
     rep.constants['Topo'] = ('bases line3/line3p/rect22/rect32p/mp21/tri1/mix2/mul22 (+ periodic line2p), depth L<=2: every denotation reachable by 1 operation '
                              'exhaustively; simulation to 3 operations' if quick else
